@@ -495,6 +495,13 @@ class ListCmpHooks:
                 return Sym('int', aff=Aff.var('int' + v.name))
             if isinstance(v, Sym) and v.kind == 'strconst' and v.v.isdigit():
                 return Sym('int', aff=Aff.const(int(v.v)))
+        if isinstance(c.func, ast.Attribute) and c.func.attr in ('isdecimal', 'isdigit') and not c.args:
+            # chunks are maximal all-digit or digit-free runs (C03.R4 "chunks partition the string"): a digit chunk is all digits
+            v = it.ev(c.func.value, env, facts)
+            if isinstance(v, Sym) and v.kind == 'chunk':
+                return Sym('truth', v=bool(v.digit))
+            if isinstance(v, Sym) and v.kind == 'strconst':
+                return Sym('truth', v=getattr(v.v, c.func.attr)())
         if fn.endswith('.match') and len(c.args) == 1:
             v = it.ev(c.args[0], env, facts)
             rname = fn.split('.')[-2]
@@ -872,7 +879,7 @@ def r3b_order_chain(rep, src):
                     m |= 1 << i
             return ASCII & ~m if neg else m
         if isinstance(e, ast.Call) and isinstance(e.func, ast.Attribute) and norm(e.func.value) == x and not e.args \
-                and e.func.attr in ('isdigit', 'isalpha', 'isalnum', 'isspace', 'isupper', 'islower'):
+                and e.func.attr in ('isdigit', 'isdecimal', 'isnumeric', 'isalpha', 'isalnum', 'isspace', 'isupper', 'islower', 'isascii', 'isidentifier', 'isprintable'):
             m = 0
             for i in range(128):
                 if getattr(alpha.syms[i], e.func.attr)():
